@@ -2,6 +2,7 @@ package lint
 
 import (
 	"fmt"
+	"go/token"
 	"go/types"
 	"sort"
 	"strings"
@@ -788,15 +789,29 @@ func (c *Ctx) chainRules(r *Report, prefix string) {
 	r.Check(okCrit, rule, "encode: critical bit and reserved bits stay zero", "-", "octet 1 is never written on the zeroed header", "the encoder writes octet 1 (critical / reserved bits)")
 	// decoder: body = b[4:length], advance b[length:], next = b[0]: reuse C13's structural checks
 	f := c.NewFA(dec)
+	// the cursor: a loop-carried byte slice that is re-sliced, or b[offset:] with a loop-carried offset
 	var cursor *ssa.Phi
+	var cursorVal ssa.Value
+	var offPhi *ssa.Phi
 	for _, li := range naturalLoops(dec) {
 		for _, ins := range li.header.Instrs {
 			if p, ok := ins.(*ssa.Phi); ok && isByteSlice(p.Type()) {
 				cursor = p
+				cursorVal = p
 			}
 		}
 	}
-	okD := cursor != nil
+	if cursor == nil {
+		for _, b := range dec.Blocks {
+			for _, ins := range b.Instrs {
+				if sl, ok := ins.(*ssa.Slice); ok && isOffsetCursor(sl) {
+					cursorVal = sl
+					offPhi = sl.Low.(*ssa.Phi)
+				}
+			}
+		}
+	}
+	okD := cursorVal != nil
 	detail := "cursor not found"
 	if okD {
 		x := newBVCtx(c, f)
@@ -808,25 +823,44 @@ func (c *Ctx) chainRules(r *Report, prefix string) {
 				}
 				root, lo, hi, open := f.relSpan(call.Call.Args[0])
 				his := c.symOffset(f, x, hi)
-				if root != ssa.Value(cursor) || open || !lo.isConst() || lo.C != 4 || normOffset(his, nil) != "0 +1*slot(2,2)" {
+				if root != cursorVal || open || !lo.isConst() || lo.C != 4 || normOffset(his, nil) != "0 +1*slot(2,2)" {
 					okD = false
 					detail = fmt.Sprintf("body span is [%s : %s]", f.Show(lo), his)
 				}
 			}
 		}
 		// advance
-		for i, e := range cursor.Edges {
-			if cursor.Block().Preds[i].Dominates(cursor.Block()) {
-				continue // entry edge
+		if cursor != nil {
+			for i, e := range cursor.Edges {
+				if cursor.Block().Preds[i].Dominates(cursor.Block()) {
+					continue // entry edge
+				}
+				root, lo, _, open := f.relSpan(e)
+				if root != ssa.Value(cursor) {
+					continue
+				}
+				los := normOffset(c.symOffset(f, x, lo), nil)
+				if !open || los != "0 +1*slot(2,2)" {
+					okD = false
+					detail = "cursor advances by " + los
+				}
 			}
-			root, lo, _, open := f.relSpan(e)
-			if root != ssa.Value(cursor) {
-				continue
-			}
-			los := normOffset(c.symOffset(f, x, lo), nil)
-			if !open || los != "0 +1*slot(2,2)" {
-				okD = false
-				detail = "cursor advances by " + los
+		} else {
+			for i, e := range offPhi.Edges {
+				if offPhi.Block().Preds[i].Dominates(offPhi.Block()) {
+					continue // entry edge
+				}
+				add, ok := e.(*ssa.BinOp)
+				if !ok || add.Op != token.ADD || add.X != ssa.Value(offPhi) {
+					okD = false
+					detail = "the offset is not advanced by an addition"
+					continue
+				}
+				los := normOffset(c.symOffset(f, x, f.pin(f.LFOf(add.Y), f.FactsAt(offPhi.Block().Preds[i]))), nil)
+				if los != "0 +1*slot(2,2)" {
+					okD = false
+					detail = "offset advances by " + los
+				}
 			}
 		}
 	}
